@@ -146,8 +146,14 @@ impl<K: Send, V: Send + Sync, H> CacheShared<K, V, H> {
 
     match loader {
       Loader::Sync(sync_loader) => {
+        #[cfg(excsn_fibre_verif)]
+        crate::verif_sched::on_spawn();
         thread::spawn(move || {
+          #[cfg(excsn_fibre_verif)]
+          crate::verif_sched::point("loader:before_load");
           let (value, cost) = sync_loader(key.clone());
+          #[cfg(excsn_fibre_verif)]
+          crate::verif_sched::point("loader:before_map_insert");
           let new_cache_entry = Arc::new(CacheEntry::new(
             value,
             cost,
@@ -185,11 +191,17 @@ impl<K: Send, V: Send + Sync, H> CacheShared<K, V, H> {
             .total_cost_added
             .fetch_add(cost, Ordering::Relaxed);
 
+          #[cfg(excsn_fibre_verif)]
+          crate::verif_sched::point("loader:before_pending_remove");
           let hash = crate::store::hash_key(&shared.store.hasher, &key);
           let index = hash as usize & (shared.pending_loads.len() - 1);
           shared.pending_loads[index].lock().remove(&key);
 
+          #[cfg(excsn_fibre_verif)]
+          crate::verif_sched::point("loader:before_complete");
           future.complete(value_arc_to_return);
+          #[cfg(excsn_fibre_verif)]
+          crate::verif_sched::point("loader:done");
         });
       }
       Loader::Async(async_loader) => {
